@@ -234,7 +234,9 @@ def match_template(template, program):
                     # within ~1e-9, which moves the solution away from the program's value
                     res = solve(x-y, var, rational=False)
                     key = str(var)[1:-1]
-                    val = float(res[-1])
+                    # a program instantiated with a complex value has a complex solution
+                    val = complex(res[-1])
+                    val = val.real if val.imag == 0 else val
 
                 if key in argmatch:
                     try:
